@@ -84,6 +84,10 @@ def jobs(tier):
                 out.append({"variant": vname, "wrap": wrap, "eval": False, "pairs": [(ip, op)]})
             out.append({"variant": vname, "wrap": wrap, "eval": False, "pairs": [("in_top", "out_top"), ("InCfg.in_attr", "OutCfg.out_attr")]})
             out.append({"variant": vname, "wrap": wrap, "eval": False, "pairs": [("in_top", "out_top"), ("InCfg.in_attr", "OutCfg.out_attr"), ("in_func.in_arg", "out_func.out_arg")]})
+        # the SAME input address in two pairs ("applies every input/output pair")
+        out.append({"variant": vname, "wrap": None, "eval": False, "pairs": [("in_top", "out_top"), ("in_top", "OutCfg.out_attr")]})
+        out.append({"variant": vname, "wrap": None, "eval": True, "pairs": [("in_vals", "out_top"), ("in_vals", "OutCfg.out_attr")]})
+        out.append({"variant": vname, "wrap": "Optional[Union[{output_param}, str]]", "eval": False, "pairs": [("in_top", "out_top"), ("in_top", "OutCfg.out_attr")]})
         out.append({"variant": vname, "wrap": None, "eval": True, "pairs": [("in_vals", "out_top")]})
         out.append({"variant": vname, "wrap": None, "eval": True, "pairs": [("in_vals", "OutCfg.out_attr")]})
         out.append({"variant": vname, "wrap": None, "eval": False, "pairs": [("InCfg.in_attr", "OutCfg.out_attr")], "input": "shadow"})
